@@ -985,7 +985,13 @@ def _method(ex, f: ast.Attribute, node, st):
             k = T.coerce(kv, ty.k)
             has = z3.And(notnone, ex.h.dict_has(st, ty, base.t, k.t))
             val = ex.h.dict_get(st, ty, base.t, k.t)
-            dflt = ex.ev(node.args[1], st) if len(node.args) > 1 else T.NONE
+            if len(node.args) > 1 and isinstance(node.args[1], (ast.Tuple, ast.List)) and not node.args[1].elts \
+                    and isinstance(ty.v, T.List):
+                # d.get(k, ()) / d.get(k, []) over list values: the default is an empty sequence of the value type
+                # (an empty tuple and an empty list are indistinguishable to iteration, len and membership)
+                dflt = ex._ev_rhs(ast.copy_location(ast.List(elts=[], ctx=ast.Load()), node.args[1]), st, ty.v)
+            else:
+                dflt = ex.ev(node.args[1], st) if len(node.args) > 1 else T.NONE
             return T.ite(has, val, dflt)
         raise Unsupported(f"dict.{name}", node)
     if isinstance(ty, T.List):
